@@ -93,7 +93,18 @@ func init() {
 			rev := fn.Params[0]
 			where := fname(fn)
 			isLenRev := func(e ssa.Value) bool {
-				c, ok := strip(e, false).(*ssa.Call)
+				e = strip(e, false)
+				for {
+					// int64(len(rev)): a widening conversion of the length is the length
+					if cv, ok := e.(*ssa.Convert); ok {
+						if w, _, isInt := intWidth(cv.Type()); isInt && w >= 32 {
+							e = strip(cv.X, false)
+							continue
+						}
+					}
+					break
+				}
+				c, ok := e.(*ssa.Call)
 				return ok && builtinName(&c.Call) == "len" && c.Call.Args[0] == rev
 			}
 			// header value: conversion of binary.BigEndian.Uint32(rev[0:4])
@@ -163,8 +174,40 @@ func init() {
 			if anyLen != nil {
 				lenSets = valueSets(fn, anyLen, isLenRev)
 			}
-			hSets := valueSets(fn, h, nil)
+			// the header may appear in several integer widths (uint32 for the lower bound, int64 for the
+			// comparison with the maximum, int for the result): all conversions of the decoded value
+			// are the header
+			hClass := map[ssa.Value]bool{h: true}
+			if cv, ok := h.(*ssa.Convert); ok {
+				hClass[cv.X] = true
+			}
+			for grew := true; grew; {
+				grew = false
+				for v := range hClass {
+					if refs := v.Referrers(); refs != nil {
+						for _, ref := range *refs {
+							switch x := ref.(type) {
+							case *ssa.Convert:
+								if w, _, isInt := intWidth(x.Type()); isInt && w >= 32 && !hClass[x] {
+									hClass[x] = true
+									grew = true
+								}
+							case *ssa.ChangeType:
+								if !hClass[x] {
+									hClass[x] = true
+									grew = true
+								}
+							}
+						}
+					}
+				}
+			}
+			isH := func(v ssa.Value) bool { return v != nil && hClass[v] }
+			hSets := valueSets(fn, h, tracker(isH))
 			isMax := func(v ssa.Value) bool {
+				if cv, ok := v.(*ssa.Convert); ok {
+					v = cv.X
+				}
 				u, ok := v.(*ssa.UnOp)
 				if !ok || u.Op != token.MUL {
 					return false
@@ -189,28 +232,28 @@ func init() {
 					if !ok {
 						continue
 					}
-					if (c.X == h && isMax(c.Y) && c.Op == token.LEQ) || (c.Y == h && isMax(c.X) && c.Op == token.GEQ) {
+					if (isH(c.X) && isMax(c.Y) && c.Op == token.LEQ) || (isH(c.Y) && isMax(c.X) && c.Op == token.GEQ) {
 						upper = true
 					}
 					ax, ox := affineOf(c.X)
 					ay, oy := affineOf(c.Y)
 					if ox == oy { // `len(rev)-4 >= header-4` is the same fact as `len(rev) >= header`
-						if (isLenRev(ax) && ay == h && c.Op == token.GEQ) || (ax == h && isLenRev(ay) && c.Op == token.LEQ) {
+						if (isLenRev(ax) && isH(ay) && c.Op == token.GEQ) || (isH(ax) && isLenRev(ay) && c.Op == token.LEQ) {
 							complete = true
 						}
-						if (isLenRev(ax) && ay == h && c.Op == token.LSS) || (ax == h && isLenRev(ay) && c.Op == token.GTR) {
+						if (isLenRev(ax) && isH(ay) && c.Op == token.LSS) || (isH(ax) && isLenRev(ay) && c.Op == token.GTR) {
 							incomplete = true
 						}
 					}
 				}
-				hs := rp.pathSet(hSets, trackValue(h))
+				hs := rp.pathSet(hSets, tracker(isH))
 				switch st {
 				case fullC:
 					nFull++
 					r.Check(hs.equal(rng(4, posInf)), where, "Full: header lower bound", ret.Pos(), "header ∈ %s at the PackageFull return", "header ∈ %s at the PackageFull return; a packet is at least its own 4-byte header, and exactly 4 is legal — required [4,+inf]", hs)
 					r.Check(upper, where, "Full: header <= maxPackageLength", ret.Pos(), "dominated by header <= maxPackageLength", "the PackageFull return is not dominated by `header <= maxPackageLength` on the header itself (a packet of exactly the maximum is legal, maximum+1 is not)")
 					r.Check(complete, where, "Full: len(buf) >= header", ret.Pos(), "dominated by len(buf) >= header", "the PackageFull return is not dominated by len(buf) >= header: an incomplete packet would be handed on")
-					r.Check(rp.vals[0] == h, where, "Full: returned length is the header", ret.Pos(), "returns the header as packet length", "the packet length returned with PackageFull is not the header value")
+					r.Check(isH(rp.vals[0]), where, "Full: returned length is the header", ret.Pos(), "returns the header as packet length", "the packet length returned with PackageFull is not the header value")
 				case less:
 					nLess++
 					ls := iset{}
